@@ -1,3 +1,4 @@
 -- Root of the library: importing every property module makes `lake build` re-check everything.
 import ExprModel.Props.C14
 import ExprModel.Props.C09
+import ExprModel.Props.C08
